@@ -1,6 +1,7 @@
 package jschema
 
 import (
+	stdJSON "encoding/json"
 	stdErrors "errors"
 	"fmt"
 	"io"
@@ -133,7 +134,9 @@ func (s *Schema) AddType(name string, sc jschema.Schema) (err error) {
 			return fmt.Errorf("generate example for Regex type: %w", err)
 		}
 
-		typSc := New(name, fmt.Sprintf("%q // {regex: %q}", example, pattern))
+		// JSON quoting, not Go quoting: %q produces escapes (\x00, \a, \U0001f3c6)
+		// that are not valid in a JSON string.
+		typSc := New(name, fmt.Sprintf("%s // {regex: %s}", jsonQuote(string(example)), jsonQuote(pattern)))
 		if err := typSc.load(); err != nil {
 			return fmt.Errorf("load added type: %w", err)
 		}
@@ -145,6 +148,15 @@ func (s *Schema) AddType(name string, sc jschema.Schema) (err error) {
 	}
 
 	return nil
+}
+
+func jsonQuote(s string) string {
+	b, err := stdJSON.Marshal(s)
+	if err != nil {
+		// A string always can be marshaled.
+		panic(err)
+	}
+	return string(b)
 }
 
 func (s *Schema) AddRule(n string, r jschema.Rule) error {
